@@ -316,3 +316,81 @@ Theorem C08_accepted_whatever_comment_layout :
     retrieve_assertion_info_tree dsig decrypt cfg now (strip_comments root) = retrieve_assertion_info_tree dsig decrypt cfg now root.
 Proof. exact response_ignores_comments. Qed.
 Print Assumptions C08_accepted_whatever_comment_layout.
+
+(* ---- (h) the whole verdict under a change of ATTRIBUTE ORDER: closes the gap of
+        C08_digest_input_ignores_attribute_order_partial for the layouts [po]: in any number of elements whose tag is not
+        Signature, at any depth, the unprefixed non-declaration attributes (ID, Version, IssueInstant, Destination, ...) move
+        freely -- among themselves and relative to the others --, the declarations and prefixed attributes keep their
+        relative order ([fixed_part]), and SortedAttrs.Less can tell the element's attributes apart ([sort_total]); elements
+        tagged Signature are left alone with all they contain.  Then findSignature makes the same visits with the same
+        name-space contexts (they read the declarations in order), finds the same signature at the same path and leaves
+        behind trees related in the same way.
+        PARTIAL as to the reference's canonicaliser (inclusive ones, as C08_canonical_form_ignores_attribute_order_partial:
+        for exc-c14n the sorted slice also holds the declarations it adds) and as to the permutations (declarations /
+        prefixed attributes changing places would need contexts compared up to lookup). ---- *)
+Theorem C08_layouts_related_by_attribute_order : forall sp tg a k sp' tg' a' k',
+  po (Elem sp tg a k) (Elem sp' tg' a' k') <->
+  sp = sp' /\ tg = tg' /\
+  if String.eqb tg "Signature" then a = a' /\ k = k'
+  else (a = a' \/ (Permutation a a' /\ fixed_part a' = fixed_part a /\ sort_total a = true)) /\ po_kids k k'.
+Proof. exact po_elem. Qed.
+Print Assumptions C08_layouts_related_by_attribute_order.
+
+Theorem C08_find_signature_ignores_attribute_order : forall root root',
+  po root root' -> id_of root' = id_of root ->
+  match find_signature root with
+  | Err e => find_signature root' = Err e
+  | Ok (r1, f) => exists r1', find_signature root' = Ok (r1', f) /\ po r1 r1'
+  end.
+Proof. exact find_signature_po. Qed.
+Print Assumptions C08_find_signature_ignores_attribute_order.
+
+Theorem C08_validation_ignores_attribute_order : forall digest sig_ok parse_cert reparse store now root1 root2,
+  po root1 root2 -> id_of root2 = id_of root1 ->
+  (forall r, picked_reference reparse root1 = Ok r -> inclusive (effective_alg r) = true) ->
+  dsig_validate canon_model digest sig_ok parse_cert reparse store now root2 =
+  dsig_validate canon_model digest sig_ok parse_cert reparse store now root1.
+Proof. exact validation_ignores_attribute_order. Qed.
+Print Assumptions C08_validation_ignores_attribute_order.
+
+(* the premise on the ID attribute holds when at most one attribute of the root has the local name ID *)
+Theorem C08_id_lookup_ignores_attribute_order : forall key a a',
+  Permutation a a' -> (List.length (filter (fun x => String.eqb (at_key x) key) a) <= 1)%nat ->
+  select_attr key a' = select_attr key a.
+Proof. exact select_attr_perm. Qed.
+Print Assumptions C08_id_lookup_ignores_attribute_order.
+
+Theorem C08_validation_ignores_attribute_order_example :
+  po LayoutEx2.base2 (LayoutEx2.doc2 LayoutEx2.ra2 LayoutEx2.ia2) /\ LayoutEx2.base2 <> LayoutEx2.doc2 LayoutEx2.ra2 LayoutEx2.ia2 /\
+  id_of (LayoutEx2.doc2 LayoutEx2.ra2 LayoutEx2.ia2) = id_of LayoutEx2.base2 /\
+  (forall r, picked_reference LayoutEx2.reparse2 LayoutEx2.base2 = Ok r -> inclusive (effective_alg r) = true) /\
+  LayoutEx2.run2 LayoutEx2.base2 = DOk LayoutEx.verified /\
+  LayoutEx2.run2 (LayoutEx2.doc2 LayoutEx2.ra2 LayoutEx2.ia2) = DOk LayoutEx.verified.
+Proof. exact LayoutEx2.attributes_moved. Qed.
+Print Assumptions C08_validation_ignores_attribute_order_example.
+
+(* WITHOUT the premise on the ID attribute FALSE of the faithful model (fidelity fact of goxmldsig / etree, fixed cases of the
+   DSIG stream confirm it on the real library): root.SelectAttr("ID") takes the first attribute whose LOCAL name is ID;
+   a root carrying ID="x" and p:ID="y" has the same canonical bytes in both orders, is accepted with ID first and is
+   "not signed" (ErrMissingSignature: gosaml2 goes on to the unsigned-Response path) with p:ID first *)
+Theorem C08_validation_attribute_order_id_namesake_refuted :
+  exists digest sig_ok parse_cert reparse store now root1 root2 v,
+    po root1 root2 /\ id_of root1 = "x"%string /\ id_of root2 = "y"%string /\
+    (forall r, picked_reference reparse root1 = Ok r -> inclusive (effective_alg r) = true) /\
+    canon_model (C11 false) root1 = canon_model (C11 false) root2 /\
+    dsig_validate canon_model digest sig_ok parse_cert reparse store now root1 = DOk v /\
+    dsig_validate canon_model digest sig_ok parse_cert reparse store now root2 = DMissing.
+Proof. exact validation_attribute_order_matters_for_id_namesakes. Qed.
+Print Assumptions C08_validation_attribute_order_id_namesake_refuted.
+
+(* the SAML layer, signed-Response path *)
+Theorem C08_accepted_whatever_attribute_order :
+  forall digest sig_ok parse_cert reparse decrypt store cfg now root1 root2,
+    let dsig := dsig_validate canon_model digest sig_ok parse_cert reparse store now in
+    po root1 root2 -> id_of root2 = id_of root1 ->
+    (forall r, picked_reference reparse root1 = Ok r -> inclusive (effective_alg r) = true) ->
+    cfg_skip_sig cfg = false -> dsig root1 <> DMissing ->
+    validate_response_tree dsig decrypt cfg now root2 = validate_response_tree dsig decrypt cfg now root1 /\
+    retrieve_assertion_info_tree dsig decrypt cfg now root2 = retrieve_assertion_info_tree dsig decrypt cfg now root1.
+Proof. exact response_ignores_attribute_order. Qed.
+Print Assumptions C08_accepted_whatever_attribute_order.
